@@ -286,13 +286,18 @@ def check_bindings_listed_separately(ctx):
         if isinstance(st, ast.Assign) and isinstance(st.value, ast.Subscript) and isinstance(st.value.value, ast.Name) and st.value.value.id == p0 \
                 and isinstance(st.value.slice, ast.Constant) and isinstance(st.targets[0], ast.Name) and st.value.slice.value in (0, 1, 2):
             slots.setdefault(st.targets[0].id, set()).add(st.value.slice.value)
-    need(slots, "C13.8: shape_str does not unpack the memos in a recognised form")
+    direct = any(isinstance(x, ast.Subscript) and isinstance(x.value, ast.Name) and x.value.id == p0 and isinstance(x.slice, ast.Constant) and x.slice.value in (0, 1, 2)
+                 for x in walk_scope(f.node))
+    need(slots or direct, "C13.8: shape_str does not unpack the memos in a recognised form")
 
     def of(e):
         out = set()
         for x in ast.walk(e):
             if isinstance(x, ast.Name) and x.id in slots:
                 out |= slots[x.id]
+            # `memos[0]` read in place
+            if isinstance(x, ast.Subscript) and isinstance(x.value, ast.Name) and x.value.id == p0 and isinstance(x.slice, ast.Constant) and x.slice.value in (0, 1, 2):
+                out.add(x.slice.value)
         return out
 
     changed = True
